@@ -18,6 +18,7 @@ import (
 	"sync"
 	"sync/atomic"
 	"testing"
+	"time"
 )
 
 type vlruStep struct {
@@ -164,7 +165,17 @@ func TestVerifLRUConc(t *testing.T) {
 				}
 			}(g)
 		}
+		// every third history is primed: the harness holds the write lock while the goroutines start
+		// (> 1 ms: starvation mode, FIFO hand-off), see the transaction-queue harness
+		primed := h%3 == 0
+		if primed {
+			c.Lock()
+		}
 		close(start)
+		if primed {
+			time.Sleep(3 * time.Millisecond)
+			c.Unlock()
+		}
 		wg.Wait()
 		var all []vlruEv
 		for _, e := range evs {
